@@ -229,6 +229,7 @@ inline AnyView gen_view(Rng& rng, bool rebased, Ptr mem, long base, long maxelem
 	std::vector<Ex> ex; long ne = 1;
 	for(int k = 0; k < D; ++k) {
 		long sz = (long[]){0, 1, 2, 3, 4, 5, 6}[rng.pick({6, 12, 24, 22, 18, 10, 8})];
+		if(rng.coin(3)) { sz = (long[]){15, 16, 17, 31, 32, 33}[rng.range(0, 5)]; }  // now and then beyond the small sizes (maxelems still applies)
 		if(ne * sz > maxelems) sz = 2;
 		if(ne * sz > maxelems) sz = 1;
 		ne *= sz;
